@@ -25,12 +25,14 @@ from .. import bus, core, cover, faults, grospec
 
 LEVEL = 'fault_enumeration'
 JOBS = {'quick': 4, 'thorough': 16}
-REQUIRED_MONITORS = ('other_entry_points', 'crash_image_read', 'prefix_read', 'inprogress_prefix_read', 'real_kill_crosscheck')
+REQUIRED_MONITORS = ('other_entry_points', 'crash_image_read', 'prefix_read', 'inprogress_prefix_read', 'real_kill_crosscheck',
+                     'abandoned_writer_read')
 REQUIRED_CLASSES = ('buffering:default', 'buffering:line', 'buffering:flush-per-write', 'buffering:tiny-13',
                     'count:declared', 'count:backfilled', 'vel:yes', 'vel:no', 'crash:inside-close',
                     'crash:between-records', 'crash:mid-record', 'prefix:shipped', 'prefix:generated',
                     'accepted:complete-file', 'accepted:inside-box-line', 'api:extrapolate_system', 'api:write_gro',
-                    'api:write_comparative_gro', 'prefix:large-file', 'names:first-records-numeric')
+                    'api:write_comparative_gro', 'prefix:large-file', 'names:first-records-numeric',
+                    'abandoned:del', 'abandoned:exception-unwinds', 'abandoned:process-ends')
 RULE = ('fault space: (writer run x buffering model x writer statement boundary) -> distinct on-disk images; every byte '
         'prefix of each in-progress stream; every byte prefix of complete files. A case is one (image or prefix) fed to '
         'the reader. Non-trivial: the image is non-empty and is not the complete file. distinct = distinct images per '
@@ -39,6 +41,7 @@ ASSUMPTIONS = [
     '"rejected" = GroFile(path) or its readlines() raises any exception',
     'a crash leaves on disk exactly the bytes that have reached the OS (observed through a second descriptor); torn writes inside one write(2) call are covered by the byte-prefix sweeps',
     'the kill can happen at any writer statement, also between the steps of close()',
+    'a writer that is dropped without close() (reference deleted, exception unwinding its owner, program ending) is a writer that stopped before it was closed',
 ]
 _cov = cover.Coverage()
 _tmp = {}
@@ -90,6 +93,8 @@ def cases(ctx):
         yield {'kind': 'large', 'i': i, 'n': n}
     for i in range(6 if ctx.tier == 'quick' else 120):
         yield {'kind': 'api', 'i': i}
+    for i in range(12 if ctx.tier == 'quick' else 240):
+        yield {'kind': 'abandoned', 'i': i}
 
 
 def read_image(path):
@@ -141,7 +146,7 @@ def judge_image(ctx, image, complete, complete_recs, path, where, monitor):
     ctx.count('evaluations')
     if not ok:
         ctx.count('rejected:' + out)
-        if monitor == 'crash_image_read' and (complete is None or len(image) <= box_start_of(complete)):
+        if monitor in ('crash_image_read', 'abandoned_writer_read') and (complete is None or len(image) <= box_start_of(complete)):
             # what GroFile refuses must be refused through the other entry points as well
             ctx.monitor('other_entry_points')
             for who in read_image_generic(path):
@@ -554,8 +559,94 @@ def run_large(ctx, case):
             pass
 
 
+ABANDON_DRIVER = r'''
+import json, os, sys
+sys.path.insert(0, os.environ['VERIF_REPO_PATH'])
+sys.path.insert(0, os.environ['VERIF_HOME'])
+from gmv import grospec
+spec = json.load(open(sys.argv[1]))
+writer = grospec.write_spec(spec, sys.argv[2], upto=int(sys.argv[3]), close=False)
+how = sys.argv[4]
+if how == 'exception':
+    raise RuntimeError('the program fails before it closes the file')
+if how == 'sys.exit':
+    sys.exit(3)
+# 'falls-off-the-end': the script simply ends with the writer still open
+'''
+
+
+def run_abandoned(ctx, case):
+    """Writing stops because the program stops using the writer: the object is dropped after k records (an exception
+    unwinds the function that owned it, a reference is overwritten, the script ends) and nobody calls close().  Whatever
+    the interpreter then does on its own with the dropped object, the file left behind is an unfinished one."""
+    import gc
+    i = case['i']
+    rng = ctx.rng('abandoned', i)
+    spec = grospec.gen_spec(rng, nmax=8, force={'declare': bool(i % 2)}, with_vel=bool((i // 2) % 2))
+    spec['attr_history'] = None
+    n = len(spec['records'])
+    path = os.path.join(_tmp['dir'], f'a{os.getpid()}.gro')
+    scratch = os.path.join(_tmp['dir'], f'as{os.getpid()}.gro')
+    grospec.write_spec(spec, path)
+    with open(path, 'rb') as fh:
+        complete = fh.read()
+    ok, recs = read_image(path)
+    if not ok:
+        ctx.violation('complete-file-rejected', f'the finished file cannot be read: {recs}', witness={'file': complete.decode(errors='replace')[:1500]})
+        return
+    complete_recs = [tuple(r) for r in recs]
+    for k in range(0, n):
+        for how in ('del', 'exception-unwinds'):
+            apath = os.path.join(_tmp['dir'], f'ab{os.getpid()}.gro')
+            if os.path.exists(apath):
+                os.remove(apath)
+            if how == 'del':
+                g = grospec.write_spec(spec, apath, upto=k, close=False)
+                del g
+            else:
+                def owner():
+                    g = grospec.write_spec(spec, apath, upto=k, close=False)   # noqa (kept alive until the raise)
+                    raise KeyError('user code fails between two records')
+                try:
+                    owner()
+                except KeyError:
+                    pass
+            gc.collect()
+            with open(apath, 'rb') as fh:
+                left = fh.read()
+            judge_image(ctx, left, complete, complete_recs, scratch,
+                        {'abandoned_writer': how, 'records_written': k, 'n_records': n, 'count_declared': spec['declare_count']},
+                        'abandoned_writer_read')
+            ctx.hit('abandoned:' + how)
+            ctx.nontrivial(('abandoned', i, k, how))
+    if i % 4 == 0:
+        # the same in a process of its own that ends without closing the writer
+        specfile = os.path.join(_tmp['dir'], f'a{os.getpid()}.json')
+        with open(specfile, 'w') as fh:
+            json.dump(spec, fh)
+        env = dict(os.environ, VERIF_REPO_PATH=core.REPO, VERIF_HOME=core.VERIF)
+        how = ['falls-off-the-end', 'exception', 'sys.exit'][(i // 4) % 3]
+        k = int(rng.integers(1, n)) if n > 1 else 0
+        apath = os.path.join(_tmp['dir'], f'ap{os.getpid()}.gro')
+        if os.path.exists(apath):
+            os.remove(apath)
+        try:
+            subprocess.run([sys.executable, '-W', 'ignore', '-c', ABANDON_DRIVER, specfile, apath, str(k), how],
+                           env=env, timeout=120, stdout=subprocess.DEVNULL, stderr=subprocess.DEVNULL)
+        except subprocess.TimeoutExpired:
+            ctx.inconclusive_because('abandoned-writer driver timed out')
+            return
+        if os.path.exists(apath):
+            with open(apath, 'rb') as fh:
+                left = fh.read()
+            judge_image(ctx, left, complete, complete_recs, scratch,
+                        {'abandoned_writer': 'process ends: ' + how, 'records_written': k, 'n_records': n,
+                         'count_declared': spec['declare_count']}, 'abandoned_writer_read')
+            ctx.hit('abandoned:process-ends')
+
+
 def run_case(ctx, case):
-    {'writer': run_writer, 'shipped': run_shipped, 'generated': run_generated, 'kill': run_kill, 'api': run_api,
+    {'abandoned': run_abandoned, 'writer': run_writer, 'shipped': run_shipped, 'generated': run_generated, 'kill': run_kill, 'api': run_api,
      'large': run_large}[case['kind']](ctx, case)
 
 
